@@ -8,6 +8,9 @@ import os
 import random
 
 
+EVENTS = [0]      # process-wide count of simulated I/O events (for the evidence: 'simulated time')
+
+
 class SimFile(object):
     """Duck-typed binary file.  Deliberately not an io.IOBase subclass (IOBase.__del__ calls close())."""
 
@@ -37,6 +40,7 @@ class SimFile(object):
     def _ev(self, op, pos, req, ret):
         fs = self.fs
         fs.seq += 1
+        EVENTS[0] += 1
         if fs.record:
             fs.log.append((fs.seq, self.hid, op, pos, req, ret))
 
